@@ -22,6 +22,8 @@ pub struct Violation {
     pub files: BTreeMap<String, String>,
     pub events: Vec<Ev>,
     pub detail: String,
+    /// fixed method: state (composition, raw keys, waiting sign) set through the restore hook before `events`
+    pub origin: Option<(String, String, u8)>,
 }
 
 impl Violation {
@@ -35,7 +37,13 @@ impl Violation {
             files: BTreeMap::new(),
             events: vec![],
             detail: String::new(),
+            origin: None,
         }
+    }
+    pub fn origin(mut self, buffer: &str, typed: &str, pending: u8) -> Self {
+        self.features.insert("synthetic_state".into(), "true".into());
+        self.origin = Some((buffer.into(), typed.into(), pending));
+        self
     }
     pub fn feat(mut self, k: &str, v: impl Into<String>) -> Self {
         self.features.insert(k.into(), v.into());
@@ -74,6 +82,7 @@ impl Violation {
             "events": self.events.iter().map(|e| e.to_json()).collect::<Vec<_>>(),
             "history": crate::drv::hist_short(&self.events),
             "detail": self.detail,
+            "origin": self.origin.as_ref().map(|(b, t, p)| json!({"buffer": b, "typed": t, "pending_kar": p})),
         })
     }
 }
@@ -210,6 +219,22 @@ impl Report {
     }
 
     /// Print KNOWN-FINDING / VIOLATION lines, write replay files; returns number of new classes.
+    /// "slow" is measured as thread CPU time of one call. A pause of the whole machine (sandbox snapshot) has been seen to
+    /// charge minutes to every running thread at once, so a slow call only counts when the same history is slow again in
+    /// a new context - unbounded time is a property of the input, not of the moment. Called before the evidence is written.
+    pub fn confirm_slow(&self) {
+        let mut g = self.new.lock().unwrap();
+        let keys: Vec<String> = g.iter().filter(|(_, gr)| gr.first.kind == "slow" && gr.first.opts.is_some()).map(|(k, _)| k.clone()).collect();
+        for k in keys {
+            let first = g[&k].first.clone();
+            let again = crate::replay::observe(&first.to_json(), "confirm-slow");
+            if !again.last().map(|l| l.ends_with("-> slow")).unwrap_or(false) {
+                eprintln!("note: a call measured as slow ({}; history [{}]) was not slow when replayed; dropped as transient", first.detail, crate::drv::hist_short(&first.events));
+                g.remove(&k);
+            }
+        }
+    }
+
     pub fn finish(&self) -> usize {
         for (id, (n, what)) in self.known_hits.lock().unwrap().iter() {
             println!(
